@@ -1,4 +1,4 @@
-import N2k.Lemmas.HandlersOps
+import N2k.Lemmas.HandlersRx
 /-!
 # C14 — each received message reaches every matching handler exactly once
 
@@ -60,32 +60,43 @@ theorem C14_dispatch_exact (ops : List Op) (bus : BusId) (pgn : Nat) :
       l.Nodup ∧ ∀ i, i ∈ l ↔ (specRun SpecSt.init ops).matching bus pgn i := by
   obtain ⟨w, hr, hi, hv⟩ := run_ok ops inv_init
   rw [view_init] at hv
-  obtain ⟨l, hd, hn, hm⟩ := dispatch_ok hi bus pgn
+  obtain ⟨l, hd, hn, hm, _⟩ := dispatch_ok hi bus pgn
   refine ⟨w, l, hr, ?_, hn, ?_⟩
   · rw [hd, ← hv]; rfl
   · intro i; rw [hm i, hv]
 
-/-- Call site in `ParseMessages` (PARTIAL: which frames complete a message is decided by `SetN2kCANBufMsg` /
-`TestHandleTPMessage`, the reassembly code of C02/C10, which is not modelled here; its outcome `RxOutcome` is an input.
-The correspondence harness drives the real receive path instead).  What is proved: a frame that completes no message
-— in particular a lone TP.CM (60416) or TP.DT (60160) frame — runs no handler and no callback; a completed message of
-ANY PGN, whether or not the library consumes it itself (ISO request, address claim, group function, TP payload), is
-dispatched exactly as `C14_dispatch_exact` says. -/
-theorem C14_what_is_dispatched_partial (ops : List Op) (bus : BusId) :
-    ∃ w, run World.init ops = some w ∧
-      onFrame w bus .notReady = some (0, []) ∧
-      onFrame w bus (loneFrame 60416) = some (0, []) ∧ onFrame w bus (loneFrame 60160) = some (0, []) ∧
-      ∀ pgn, ∃ l, onFrame w bus (.ready pgn) = some (if (specRun SpecSt.init ops).cb bus then 1 else 0, l) ∧
-        l.Nodup ∧ ∀ i, i ∈ l ↔ (specRun SpecSt.init ops).matching bus pgn i := by
-  obtain ⟨w, hr, hi, hv⟩ := run_ok ops inv_init
-  rw [view_init] at hv
-  refine ⟨w, hr, rfl, rfl, rfl, ?_⟩
-  intro pgn
-  obtain ⟨l, hd, hn, hm⟩ := dispatch_ok hi bus pgn
-  refine ⟨l, ?_, hn, ?_⟩
-  · show dispatch w bus pgn = _
-    rw [hd, ← hv]; rfl
-  · intro i; rw [hm i, hv]
+/-- END TO END over histories of client operations and RECEIVED FRAMES, on any number of bus objects, any receive
+configuration `c` and any initial content `rx0` of the receive slots.  `nodeRun` = per frame the receive path of C02
+(`N2k.Rx.rx`: `SetN2kCANBufMsg` for single frames, fast packets of any number of interleaved senders, TP.CM/TP.DT frames)
+followed by `RunMessageHandlers` for the message it completes.  For EVERY history: no fault, and event by event
+(`CallsAgree`): an event that completes no message (client operation, fast-packet fragment, damaged or orphan frame, TP.CM,
+TP.DT, frame refused by the known-message gate) causes NO call of the callback or of any handler; an event that completes
+message `m` on bus `b` causes exactly one call, with exactly `m`, the plain callback once iff set, and `HandleMsg` of a
+duplicate-free list of handlers that is exactly the set the history specification says is attached to `b` and registered
+for PGN 0 or `m.pgn` at that moment, the all-PGN handlers first.  Whether the library consumes `m` itself (ISO request,
+address claim, group function) plays no role.
+PARTIAL in exactly one respect: the reassembly of a transport-protocol payload from TP.DT packets is the receiver of C10
+(`N2k.TP`, a different state space, not composed here); its completion is the INPUT event `Ev.tpDone b m`, for which the
+same exactness is proved.  Everything else (which frames complete which message) is computed by the C02 model. -/
+theorem C14_what_is_dispatched_partial (c : BusId → Rx.Cfg) (rx0 : BusId → Rx.St) (evs : List Ev) :
+    ∃ n calls, nodeRun c ⟨World.init, rx0⟩ evs = some (n, calls) ∧
+      CallsAgree calls (expected c SpecSt.init rx0 evs) := by
+  obtain ⟨n, calls, hr, _, hc⟩ := nodeRun_ok c evs ⟨World.init, rx0⟩ inv_init
+  exact ⟨n, calls, hr, hc⟩
+
+/-- A transport-protocol control (60416) or data (60160) frame itself is never passed to the callback or to a handler,
+in any state of the node. -/
+theorem C14_transport_frames_not_dispatched (c : BusId → Rx.Cfg) (n : Node) (b : BusId) (now : Nat) (f : Rx.Frame)
+    (h : f.pgn = 60416 ∨ f.pgn = 60160) :
+    ∃ n', nodeStep c n (.frame b now f) = some (n', none) := by
+  have hh : Rx.handled (c b) f = false := by
+    rcases h with h | h <;> simp [Rx.handled, Rx.isTP, h]
+  have h2 : (Rx.rx (c b) (n.rx b) now f).2 = none := by
+    unfold Rx.rx; rw [hh]; simp only [Bool.false_eq_true, if_false]; split <;> rfl
+  refine ⟨⟨n.w, (rxTrack c n.rx (.frame b now f)).1⟩, ?_⟩
+  simp [nodeStep, rxTrack, h2]
+
+example : ∃ f : Rx.Frame, f.pgn = 60416 ∨ f.pgn = 60160 := ⟨⟨7, 60416, 1, 255, 8, [32, 9, 0, 2, 255, 5, 248, 1]⟩, Or.inl rfl⟩
 
 /-! Non-vacuity: the theorems have no hypotheses; the examples show the model doing what the statements talk about. -/
 
@@ -103,5 +114,22 @@ example : ¬ (specRun SpecSt.init demoOps).matching 0 5 1 := by
   rintro ⟨p, h, _⟩
   have : (specRun SpecSt.init demoOps).h 1 = some (5, some 1) := by decide
   rw [this] at h; cases h
+
+/-- two fast-packet senders (sources 1 and 2, PGN 129029, 10 bytes = 2 frames each) interleaved frame by frame on bus 0;
+handler 0 (all PGNs) and handler 1 (PGN 129029) are attached to bus 0, handler 2 (PGN 130306) too, handler 3 (all PGNs)
+to bus 1.  The two first frames and the lone TP.DT frame cause no call; each last frame causes one call with the
+reassembled message of its sender to handlers 0 and 1. -/
+def demoEvs : List Ev :=
+  [.op (.new 1 129029 (some 0)), .op (.new 0 0 (some 0)), .op (.new 2 130306 (some 0)), .op (.new 3 0 (some 1)),
+   .frame 0 1000 ⟨6, 129029, 1, 255, 8, [0, 10, 1, 2, 3, 4, 5, 6]⟩,
+   .frame 0 1001 ⟨6, 129029, 2, 255, 8, [64, 10, 21, 22, 23, 24, 25, 26]⟩,
+   .frame 0 1002 ⟨7, 60160, 9, 255, 8, [1, 1, 2, 3, 4, 5, 6, 7]⟩,
+   .frame 0 1003 ⟨6, 129029, 1, 255, 8, [1, 7, 8, 9, 10, 255, 255, 255]⟩,
+   .frame 0 1004 ⟨6, 129029, 2, 255, 8, [65, 27, 28, 29, 30, 255, 255, 255]⟩]
+
+example : (nodeRun (fun _ => {}) ⟨World.init, fun _ => Rx.init 5⟩ demoEvs).map (·.2) =
+    some [none, none, none, none, none, none, none,
+      some ⟨0, ⟨6, 129029, 1, 255, 10, [1, 2, 3, 4, 5, 6, 7, 8, 9, 10]⟩, 0, [0, 1]⟩,
+      some ⟨0, ⟨6, 129029, 2, 255, 10, [21, 22, 23, 24, 25, 26, 27, 28, 29, 30]⟩, 0, [0, 1]⟩] := by decide +kernel
 
 end N2k.C14
